@@ -87,7 +87,7 @@ func checkC18(c *Case, r *Rec) error {
 	}
 	if c.Kind == "empty-component" {
 		if hasEmptyComponent(v) && h(v) {
-			return violation("", "C18: the default handler for %q accepts %q, which is empty or has an empty component", prop, v)
+			return violation("", "C18: the default handler for %q accepts %q, which is empty, has an empty component, or starts or ends in a Unicode space that is no CSS white space", prop, v)
 		}
 		return nil
 	}
